@@ -51,17 +51,20 @@ Definition newline_start (s : string) : bool := str_prefix (String (ascii_of_N 1
 
 (* rule_clause: optional not, a name, then the end of input / blanks and a line break / blanks and a comment / blanks and `{` /
    an or-join: the reference ends there; otherwise a custom message must follow (cut) *)
+(* the lookahead after a rule name: the end of the input, blanks and a line break, blanks and a comment, blanks and `{`, an or-join *)
+Definition reference_ends (r : string) : bool :=
+  let b := snd (span_while is_blank r) in
+  match r with EmptyString => true | _ => false end
+  || newline_start b
+  || match b with String c _ => is_hash c || Ascii.eqb c "{" | EmptyString => false end
+  || match or_join r with Some _ => true | None => false end.
+
 Definition rule_clause (s : string) : pres pnamed :=
   let '(neg, s1) := match not_kw s with Some r => (true, r) | None => (false, s) end in
   match var_name s1 with
   | POk name r =>
-      let b := snd (span_while is_blank r) in
-      let ends := match r with EmptyString => true | _ => false end
-                  || newline_start b
-                  || match b with String c _ => is_hash c || Ascii.eqb c "{" | EmptyString => false end
-                  || match or_join r with Some _ => true | None => false end in
-      if ends then POk (mkPN name neg None) r
-      else match custom_message b with
+      if reference_ends r then POk (mkPN name neg None) r
+      else match custom_message (snd (span_while is_blank r)) with
            | POk m r2 => POk (mkPN name neg (Some m)) r2
            | PErr => PFail
            | PFail => PFail
